@@ -213,9 +213,17 @@ class MEIExporter:
                 for onset in unique_onsets:
                     # group by start time
                     notes = voice_notes[note_start_times == onset]
+                    # grace notes take no time: they are written before the element that
+                    # starts with them, not as members of its chord
+                    is_grace = np.array(
+                        [isinstance(n, spt.GraceNote) for n in notes], dtype=bool
+                    )
+                    for grace_note in notes[is_grace]:
+                        self._handle_note_or_rest(grace_note, voice_el)
+                    notes = notes[~is_grace]
                     if len(notes) > 1:
                         self._handle_chord(notes, voice_el)
-                    else:
+                    elif len(notes) == 1:
                         self._handle_note_or_rest(notes[0], voice_el)
 
         self._handle_tuplets(measure_el, start=measure.start.t, end=measure.end.t)
